@@ -2,8 +2,8 @@
  * models/aws_fmt.c -- model (assumed contract, G6) of asprintf(3) for exactly the conversions aws/aws_sign.c uses:
  * %s  %d  %%  and ordinary characters (C11 7.21.6.1).  Any other conversion fails a MODEL assertion.
  *
- * WHAT IS MODELLED.  asprintf either fails (returns -1, *ret = NULL) -- nondeterministically, or when malloc
- * fails -- or stores a fresh NUL-terminated string in *ret and returns its length.  The model records WHAT WAS ASKED
+ * WHAT IS MODELLED.  asprintf stores a fresh NUL-terminated string in *ret (success path only; the failure paths
+ * are the business of the -DAWS_FMT_MAYFAIL mode, see the function body).  The model records WHAT WAS ASKED
  * TO BE PRINTED, in normal form (models/aws_stream.h): the literal text of the format, each %s argument (a
  * registered input as a REF token, a fixed-length internal string or a string literal as text), each %d argument.
  * By C11 the result is the concatenation of exactly these pieces; that is the assumed contract.  The BYTES of the
@@ -40,6 +40,7 @@ struct aws_fmt_ghost g_aws_fmt;
 
 #ifndef VERIF_NATIVE
 int nondet_int(void);
+size_t nondet_size_t(void);
 #define AWS_FMT_BOUND(c, what) do { __CPROVER_assert(c, "MODEL-BOUND aws_fmt: " what); __CPROVER_assume(c); } while (0)
 #define AWS_FMT_BAD(what) do { __CPROVER_assert(0, "MODEL aws_fmt: " what); __CPROVER_assume(0); } while (0)
 #pragma CPROVER check push
@@ -54,19 +55,36 @@ aws_asprintf9(char ** ret, const char * fmt, const void * a1, const void * a2, c
 	char * str;
 	size_t ai = 0;
 	size_t fi, i, L;
-	int fail;
 
 	av[0] = a1; av[1] = a2; av[2] = a3; av[3] = a4; av[4] = a5; av[5] = a6; av[6] = a7; av[7] = a8; av[8] = a9;
+#ifdef AWS_FMT_MAYFAIL
+	/* failure-path groups: no recording at all, only "fails, or yields some fresh NUL-terminated string" */
+	if (nondet_int() || (str = malloc(AWS_OUTMAX)) == NULL) {
+		*ret = NULL;	/* unspecified by the interface; glibc and the BSDs store NULL */
+		return (-1);
+	}
+	(void)av; (void)fmt; (void)r; (void)fi; (void)ai;
+	L = nondet_size_t();
+	__CPROVER_assume(L < AWS_OUTMAX);
+	for (i = 0; i < AWS_OUTMAX; i++)
+		__CPROVER_assume(i >= L || str[i] != '\0');
+	str[L] = '\0';
+	*ret = str;
+	return ((int)L);
+#else
 	/*
-	 * Failure is decided first, but there is NO early return: a symbolic execution merges the states of the two
-	 * paths at the return, and a record counter or token count that differs between them would be symbolic from
-	 * then on (measured: the second asprintf call does not finish).  A failed call therefore also takes a record
-	 * slot (marked failed) and builds its normal form; only the bytes and the values handed back depend on `fail`.
+	 * SUCCESS PATH ONLY, and the value returned is the constant 0 ("some non-negative value") instead of the
+	 * length.  Reason: CBMC's symbolic execution merges the states of the paths that rejoin after
+	 * `if (asprintf(...) == -1) goto err;` (they rejoin at the caller's return); ghost state written on one path
+	 * only -- the record counter, the token counts of later records -- is symbolic from then on, and the
+	 * comparison of normal forms, which relies on that structure being constant, no longer terminates in reasonable
+	 * time (measured: > 15 min).  The test `== -1` can only be decided by the symbolic execution when the returned
+	 * value is a constant.  Sound for aws_sign.c because all ten call sites use the value only in `== -1`
+	 * (checked by eye; a caller that used the length would need the other mode).  The failure paths (asprintf
+	 * returning -1, malloc returning NULL) are covered separately by the AWS_FMT_MAYFAIL groups.
 	 */
-	fail = (nondet_int() != 0);
 	str = malloc(AWS_OUTMAX);
-	if (str == NULL)
-		fail = 1;
+	__CPROVER_assume(str != NULL);
 
 	AWS_FMT_BOUND(g_aws_fmt.n < AWS_NREC, "more than AWS_NREC asprintf calls");
 	r = &g_aws_fmt.rec[g_aws_fmt.n];
@@ -101,20 +119,17 @@ aws_asprintf9(char ** ret, const char * fmt, const void * a1, const void * a2, c
 	/* the result: L arbitrary non-NUL bytes, then NUL; remembered */
 	L = aws_stream_len(&r->s);
 	AWS_FMT_BOUND(L < AWS_OUTMAX, "asprintf result longer than AWS_OUTMAX - 1");
-	if (!fail) {
-		for (i = 0; i < AWS_OUTMAX; i++)
-			__CPROVER_assume(i >= L || str[i] != '\0');
-		str[L] = '\0';
-		for (i = 0; i < AWS_OUTMAX; i++)
-			r->snap[i] = (uint8_t)str[i];
-	} else if (str != NULL)
-		free(str);
-	r->failed = fail;
+	for (i = 0; i < AWS_OUTMAX; i++)
+		__CPROVER_assume(i >= L || str[i] != '\0');
+	str[L] = '\0';
+	for (i = 0; i < AWS_OUTMAX; i++)
+		r->snap[i] = (uint8_t)str[i];
+	r->failed = 0;
 	r->len = L;
-	r->result = fail ? NULL : str;
-	/* on failure *ret is unspecified by the interface; glibc and the BSDs store NULL, and so does the model */
-	*ret = fail ? NULL : str;
-	return (fail ? -1 : (int)L);
+	r->result = str;
+	*ret = str;
+	return (0);
+#endif
 }
 
 #pragma CPROVER check pop
